@@ -22,6 +22,7 @@ static void decode_check(const char* t)
 	Xml x = Xml::decode(t);
 	if (!x.isnull() && (bool)x) {
 		vp_assert(!x.isText(), "the root is an element");
+		{ Xml up = x.parent(); vp_assert(up.isnull() || !(bool)up, "the root of a decoded document has no parent (documented: null for the root)"); }
 		int n = walk(x, 0);
 		vp_note(n);
 	} else vp_note(0);
